@@ -100,6 +100,15 @@ CLAIMS = {
         "the transports' configuration entry points receive (interposed at link time) must equal Dispatch and must not contain the embedded credentials.",
    note="quick: every spelling + a seeded sample of 4000 product cases (x aggregator/extender); thorough: the full table. Known finding F-C20-1 (fragment without path); defects F-C20-2, F-C20-3 fixed. The login id / key actually used on the wire are C06/C07's.",
    technique="TLC-checked composition/dispatch table replayed into the blocking and asynchronous services with link-time interposed transport setters"),
+ "C07": dict(level="model_checking", design_ref="DESIGN.md 4/C07",
+   text="SignExtend.tla models signing as a request/reply protocol whose reply is an attribute vector (payload kind, MAC, header, PDU version, status, request id, "
+        "input hash, internal consistency); TLC explores every request variant (3 algorithms x levels x blocking signAggregated / createSignature / async) with "
+        "every reply deviating from the honest one in at most two attributes and checks SuccessOnlyIfValid / NothingSentWhenRefused. Every behaviour is replayed "
+        "over the real blocking TCP client and the real asynchronous service on scripted sockets with replies built by the independent reference aggregator; "
+        "the request on the wire must carry hash, level, login id unchanged and a correct HMAC; success must coincide with the spec's result and the returned "
+        "signature must be for the requested hash and level.",
+   note="quick: all single deviations + 400 sampled double deviations; thorough: all 1.6e3 behaviours. HTTP (libcurl) transport and the block signer are not bound. The SDK adds the requested level to the reply's first level correction itself (so there is no 'lower level' reply).",
+   technique="TLC model checking of the protocol + replay of all TLC behaviours into the real signing calls on scripted sockets"),
 }
 for e in ENGINES:
     e["serves_properties"] = sorted(CLAIMS)
